@@ -94,7 +94,19 @@ def run(ctx):
                 gases.append((k, g, prm, nm))
         rp = dict(fills=fills, ratios=ratios, gases=[(k, nm, prm) for k, g, prm, nm in gases], nlayers=n,
                   levels=lv, T=T)
-        chem = TaurexChemistry(fill_gases=fills, ratio=ratios if nfill > 1 else 0.1)
+        if nfill > 1 and rng.random() < 0.5:
+            # the ratios arrive through the fitting parameters (as in a retrieval), in a random order, after the
+            # chemistry was constructed with other values
+            chem = TaurexChemistry(fill_gases=fills, ratio=[10 ** rng.uniform(-3, 0.5) for _ in range(nfill - 1)])
+            fp = chem.fitting_parameters()
+            order_ = list(range(nfill - 1))
+            rng.shuffle(order_)
+            for j in order_:
+                fp['%s_%s' % (fills[j + 1], fills[0])][3](ratios[j])
+            ctx.count('ratios-set-through-fitting-parameters')
+            rp = dict(rp, ratios_set_in_order=order_)
+        else:
+            chem = TaurexChemistry(fill_gases=fills, ratio=ratios if nfill > 1 else 0.1)
         for k, g, prm, nm in gases:
             chem.addGas(g)
         profs = []
